@@ -27,7 +27,28 @@ def build(ctx):
     finally:
         ctx.pid = pid
     bins = vf.cargo_build(["h_dd"], hooks=True, target_sub="hooks")
-    return bins["h_dd"], drv_dd, drv_tr
+    # C07p: the same harness on the POINTER-based manager (crates/oxidd-manager-pointer: own unique table code,
+    # arcslab node store, node ids = addresses) with the hooks of the third hook commit
+    bins_p = vf.cargo_build(["h_dd"], hooks=True, features=[POINTER_CFG], no_default=True, target_sub="hooks-" + POINTER_CFG)
+    return {"index": bins["h_dd"], "pointer": bins_p["h_dd"]}, drv_dd, drv_tr
+
+
+POINTER_CFG = "cfg-pointer"
+PTR_PREFIX = "ptr-"       # case ids of the runs on the pointer-based manager
+
+
+def pointer_sample(cases, thorough):
+    """The cases that are run a second time on the pointer-based manager build (same scripts, same seeds):
+    every third history, every second hammer / gcstorm / stress case."""
+    out = []
+    seen = {}
+    for h, ops in cases:
+        fam = h[0]
+        n = seen.get(fam, 0)
+        seen[fam] = n + 1
+        if n % (3 if fam == "p" else 2) == 0:
+            out.append((PTR_PREFIX + h, ops))
+    return out
 
 
 BOOL_OPS = ddgen.BIN_OPS
@@ -296,7 +317,7 @@ def gen_cases(ctx):
     return cases
 
 
-def run_both(ctx, binp, drv_dd, drv_tr, cases, tag=""):
+def run_both(ctx, binp, drv_dd, drv_tr, cases, tag="", stat_prefix=""):
     """sharded: implementation trace -> DD driver verdicts + trace-replay verdicts"""
     from concurrent.futures import ThreadPoolExecutor
     nsh = max(1, min(8, len(cases)))     # 8 shards: every case runs several threads itself
@@ -321,10 +342,10 @@ def run_both(ctx, binp, drv_dd, drv_tr, cases, tag=""):
             for cid, _ in bad1 + bad2:
                 res["impl"][cid] = impl
             for kk, v in st1.items():
-                ctx.add_stat("dd_" + kk if not kk.startswith(("chk_", "bad_", "op_")) else kk, v)
+                ctx.add_stat(stat_prefix + ("dd_" + kk if not kk.startswith(("chk_", "bad_", "op_")) else kk), v)
             for kk, v in st2.items():
-                ctx.add_stat("trace_" + kk, v)
-            ctx.add_stat("restarts", restarts)
+                ctx.add_stat(stat_prefix + "trace_" + kk, v)
+            ctx.add_stat(stat_prefix + "restarts", restarts)
     return res
 
 
@@ -349,11 +370,19 @@ def replay_controls(ctx, drv_tr):
 
 def run(ctx):
     vf.proof_gate(ctx, ALLOWED_AXIOMS)
-    binp, drv_dd, drv_tr = build(ctx)
+    bins, drv_dd, drv_tr = build(ctx)
     replay_controls(ctx, drv_tr)
     cases = gen_cases(ctx)
-    by_id = {h.split()[0]: (h, ops) for h, ops in cases}
-    res = run_both(ctx, binp, drv_dd, drv_tr, cases)
+    pcases = pointer_sample(cases, ctx.tier == "thorough")
+    by_id = {h.split()[0]: (h, ops) for h, ops in cases + pcases}
+    bin_of = lambda cid: bins["pointer" if cid.startswith(PTR_PREFIX) else "index"]
+    res = run_both(ctx, bins["index"], drv_dd, drv_tr, cases)
+    res_p = run_both(ctx, bins["pointer"], drv_dd, drv_tr, pcases, tag="-ptr", stat_prefix="ptr_")
+    res_index_ok = res["ok"]
+    for key in ("bad_tr", "bad_dd"):
+        res[key] = res[key] + res_p[key]
+    res["impl"].update(res_p["impl"])
+    res["ok"] += res_p["ok"]
     # failures caused by the operating system refusing threads / memory are not verdicts: re-run those cases
     for attempt in range(3):
         rid = {cid for cid, m in res["bad_tr"] + res["bad_dd"] if vf.RESOURCE_RE.search(m)}
@@ -362,10 +391,16 @@ def run(ctx):
         ctx.add_stat("resource_failures_retried", len(rid))
         import time as _t
         _t.sleep(5 + 5 * attempt)
-        res2 = run_both(ctx, binp, drv_dd, drv_tr, [by_id[c] for c in sorted(rid)], tag=f"-resretry{attempt}")
         for key in ("bad_tr", "bad_dd"):
-            res[key] = [(c, m) for c, m in res[key] if c not in rid] + res2[key]
-        res["impl"].update(res2["impl"])
+            res[key] = [(c, m) for c, m in res[key] if c not in rid]
+        for which in ("index", "pointer"):
+            again = [by_id[c] for c in sorted(rid) if bin_of(c) == bins[which]]
+            if not again:
+                continue
+            res2 = run_both(ctx, bins[which], drv_dd, drv_tr, again, tag=f"-resretry{attempt}-{which}", stat_prefix="retry_")
+            for key in ("bad_tr", "bad_dd"):
+                res[key] += res2[key]
+            res["impl"].update(res2["impl"])
     if any(vf.RESOURCE_RE.search(m) for _, m in res["bad_tr"] + res["bad_dd"]):
         raise vf.CheckFailure("operating-system resources exhausted (threads / memory) while running the parallel cases; not a verdict")
     seen = set()
@@ -380,24 +415,40 @@ def run(ctx):
             trace = case_trace(res["impl"][cid], cid)
             events = [l for l in trace if l.startswith("EV ")]
             hk = " ".join(t for t in header.split()[1:] if t.split("=")[0] in ("kind", "threads", "seed", "yield"))
-            sig = f"{kind}:{src}:{cls[1]}:{cls[2]}:{hk}:case-{cid}"
+            mgr = "pointer" if cid.startswith(PTR_PREFIX) else "index"
+            sig = f"{kind}:{src}:{cls[1]}:{cls[2]}:{hk}:manager={mgr}:case-{cid}"
             vf.report_violation(
                 ctx, sig,
                 {"stage": "correspondence", "kind": kind, "source": "trace replay (coq/Mgr/Conc.v step_tbl, coq/Mgr/ConcCache.v clstep)" if src == "trace" else "result / snapshot audit against the sequential specification",
-                 "case_header": header, "ops": ops, "verdict": msg,
+                 "case_header": header, "ops": ops, "verdict": msg, "manager": mgr,
+                 "build": "h_dd, RUSTFLAGS=--cfg oxidd_verif, " + ("--no-default-features --features " + POINTER_CFG + " (oxidd-manager-pointer)" if mgr == "pointer" else "default features (oxidd-manager-index)"),
                  "logged_table_events_of_the_failing_run": events[:400],
                  "note": "the interleaving is chosen by the OS scheduler and the seeded perturbation; --replay re-runs this case (several times) with the same seed",
                  "replay_cmd": "./check C07 --replay <this file>",
                  "theorem_or_relation": "C07: coq/Props/C07.v (C07_run_inv, C07_conc_canonical, C07_erase_sim; apply cache: C07_cache_run_inv, C07_cache_trace_sim, C07_cache_clog_inv); driver relation named in the verdict"},
                 nfif=(kind != "prop"))
-    ctx.samples = [{"case": h, "ops": ops[:30] + (["..."] if len(ops) > 30 else [])} for h, ops in (cases[:1] + cases[-1:])]
-    ctx.stats["cases"] = len(cases)
+    # the tie is vacuous if a build logs nothing (hook commit missing / flag not passed): machinery failure, not a pass
+    for which, pre in (("index", ""), ("pointer", "ptr_")):
+        for st in ("trace_ev_goi", "trace_chk_C07_table_after_block"):
+            if int(ctx.stats.get(pre + st, 0)) == 0:
+                raise vf.CheckFailure(f"the {which}-based manager build logged no {st[6:]} events: the cfg(oxidd_verif) hooks of /repo (hooks.json) are missing or inactive")
+    ctx.samples = [{"case": h, "ops": ops[:30] + (["..."] if len(ops) > 30 else [])} for h, ops in (cases[:1] + cases[-1:] + pcases[:1])]
+    ctx.stats["cases"] = len(cases) + len(pcases)
+    ctx.stats["cases_index_manager"] = len(cases)
+    ctx.stats["cases_pointer_manager"] = len(pcases)
     ctx.stats["distinct_nontrivial"] = len({(h.split(" ", 1)[1], tuple(ops)) for h, ops in cases if any(o.startswith("PAR") for o in ops)})
     vf.write_evidence(
         ctx, "proof",
-        rule="per kind (bdd, bcdd, zbdd): random histories with 2-4 parallel blocks, each executed by 2-4 OS threads (plus 1/2/4 pool workers) on one manager: apply, not, ite, quantification, clone, drop (also on another thread), node_count and collections under the shared lock; several threads compute the same operation on the same operands; churn blocks (a small set of operations recomputed and dropped over and over while one thread collects continuously); hammer cases (one long churn block, 120-260 rounds per thread against 80-200 collections, on an apply cache of 1 or 2 buckets); gcstorm cases (3 threads recompute a few operations 200-300 times each on a cache of 1 or 2 buckets while the fourth thread runs up to 3000 collections in a row for as long as they work); seeded yield/spin injection (0/5/20/50 percent) at the hook sites; sequential interludes with drops and gc. non-trivial = case with at least one parallel block; distinct = distinct (header, op list)",
+        rule="per kind (bdd, bcdd, zbdd): random histories with 2-4 parallel blocks, each executed by 2-4 OS threads (plus 1/2/4 pool workers) on one manager: apply, not, ite, quantification, clone, drop (also on another thread), node_count and collections under the shared lock; several threads compute the same operation on the same operands; churn blocks (a small set of operations recomputed and dropped over and over while one thread collects continuously); hammer cases (one long churn block, 120-260 rounds per thread against 80-200 collections, on an apply cache of 1 or 2 buckets); gcstorm cases (3 threads recompute a few operations 200-300 times each on a cache of 1 or 2 buckets while the fourth thread runs up to 3000 collections in a row for as long as they work); seeded yield/spin injection (0/5/20/50 percent) at the hook sites; sequential interludes with drops and gc. All cases run on the index-based manager build; every third history and every second hammer / gcstorm / stress case runs a second time (ids ptr-*) on the pointer-based manager build (--no-default-features --features cfg-pointer: node ids are addresses) with the same two replays and audits. non-trivial = case with at least one parallel block; distinct = distinct (header, op list), counted once per script (not per manager)",
         checker_cmd="make -C coq Props/C07.vo (coqc 8.16.1) + Print Assumptions audit; ./check C07",
-        extra_cov={"cases_ok": res["ok"], "cases_bad_trace_replay": len(res["bad_tr"]), "cases_bad_result_audit": len(res["bad_dd"]),
+        extra_cov={"cases_ok": res["ok"], "cases_ok_index_manager": res_index_ok, "cases_ok_pointer_manager": res_p["ok"],
+                   "cases_bad_trace_replay": len(res["bad_tr"]), "cases_bad_result_audit": len(res["bad_dd"]),
+                   "pointer_manager_traces_validated_against_impl": int(ctx.stats.get("ptr_trace_par_blocks", 0)) - int(ctx.stats.get("ptr_trace_par_blocks_not_replayed", 0)),
+                   "pointer_manager_logged_get_or_insert_events_replayed": int(ctx.stats.get("ptr_trace_ev_goi", 0)),
+                   "pointer_manager_logged_collector_removals_replayed": int(ctx.stats.get("ptr_trace_ev_gc_remove", 0)),
+                   "pointer_manager_logged_cache_insertions_replayed": int(ctx.stats.get("ptr_trace_ev_cache_add", 0)),
+                   "pointer_manager_logged_cache_hits_replayed": int(ctx.stats.get("ptr_trace_ev_cache_hit", 0)),
+                   "pointer_manager_logged_collections_with_cache_protocol_replayed": int(ctx.stats.get("ptr_trace_ev_cache_sweeps", 0)),
                    "traces_validated_against_impl": int(ctx.stats.get("trace_par_blocks", 0)) - int(ctx.stats.get("trace_par_blocks_not_replayed", 0)),
                    "logged_get_or_insert_events_replayed": int(ctx.stats.get("trace_ev_goi", 0)),
                    "logged_collector_removals_replayed": int(ctx.stats.get("trace_ev_gc_remove", 0)),
@@ -409,13 +460,14 @@ def run(ctx):
         assumptions=[
             "atomicity of the hooked regions of /repo (mutexes, the RwLock, atomics with Release/Acquire, rayon) is assumed; the model's actions are atomic by definition",
             "the explored schedules are those produced by the OS scheduler and the seeded perturbation at the hook sites; not an exhaustive enumeration",
-            "hooks exist in the index-based manager and the direct-mapped apply cache only",
+            "hooks exist in the index-based manager, the pointer-based manager and the direct-mapped apply cache only (hooks.json: three add-only commits under cfg(oxidd_verif))",
         ])
 
 
 def replay(ctx, path):
-    binp, drv_dd, drv_tr = build(ctx)
+    bins, drv_dd, drv_tr = build(ctx)
     r = json.load(open(path))
+    binp = bins["pointer" if r.get("manager") == "pointer" or r["case_header"].startswith(PTR_PREFIX) else "index"]
     bad_any = False
     for attempt in range(20):
         res = run_both(ctx, binp, drv_dd, drv_tr, [(r["case_header"], r["ops"])], tag=f"-replay{attempt}")
